@@ -121,7 +121,13 @@ impl<const COS: bool> SimdUnaryOp<f32> for SinCos<COS> {
         let q = ops.mul_add(x_rr_sq, b4, b2);
         let q = ops.mul_add(x_rr_sq, q, one);
 
-        ops.div(p, q)
+        let y = ops.div(p, q);
+        if COS {
+            y
+        } else {
+            // sin(-0.0) = -0.0: range reduction loses the sign of a zero input.
+            ops.select(x, y, ops.eq(x, ops.zero()))
+        }
     }
 }
 
